@@ -18,17 +18,28 @@ PROPS["C11"] = dict(
          "lru.Cache[*Obj,*Obj], lru.ECache[*Obj PK, comparable struct inner key holding a pointer, *Obj], lru.ExpirableCache[*Obj,*Obj]; slots from {8,64,200,1000,4000}, one case in 12 20000 (thorough: or 100000); cache capacity from "
          "{slots, 2*slots, slots/2, slots/10}. Ops (slot ranges modulo slots, every list executable): add = insert a FRESH key/value/PK object for every absent slot of a range; thin = remove the present slots of a range except every stride-th "
          "(stride from {0=none survives,2,3,7,16,50,63,64,65,100,128,257,1000} or anything up to slots, any offset, either direction); touch = cache hit (unlink+relink) / map Remove+Add; clear = Clear() of the cache / the same iterator-and-Remove loop on the map; "
-         "expire (expirable kind: the next touch replaces the entry); maps: open 1..8 iterators spaced over the map, advance all, close all; gc = measurement point. Three cases in four begin with fill-all then thin (maps: optionally with parked iterators) or fill-all, clear, "
-         "insert a few; then up to 8 drawn ops. Every case ends with: close the iterators, measure, insert 3 entries (re-use), measure. The harness holds a strong reference to an object only while its entry is live (caches: until the delete callback) and a weak.Pointer afterwards. "
-         "Measurement: runtime.GC() until, for each of keys / values / primary keys, at most 8 + (open iterators) objects of removed entries still resolve, deadline 10 collections (sync.Pool needs two); more than that after 10 collections = violation "
+         "expire (expirable kind: the next touch replaces the entry); maps: open 1..8 iterators spaced over the map, advance all, close all; gc = measurement point; take / put = remove the first 1..64 present / insert into the first 1..64 absent slots "
+         "found from a drawn position (a cache at capacity evicts for each put); flight (caches) = for each of the first N (1..3 or 9..64) absent slots: GetOrCreate(fresh key) runs on a second goroutine and is parked inside the create function, while it is "
+         "in flight the first goroutine calls Remove(that key) or Clear() (drawn), then the creation is released and fails (all of them, or all but every 2nd / 3rd, which succeed and are live entries); one creation at a time, the second goroutine has ended "
+         "before the op returns; the key/PK objects of a failed creation were never stored and count as objects of a removed entry from then on. Three cases in four (caches: four in five) begin with fill-all then thin (maps: optionally with parked iterators) or fill-all, clear, "
+         "insert a few, or (caches) some residents then a flight op; then up to 8 drawn ops; then a drawn ending: nothing, or take 1..3 then put exactly 1, or put 1..3 then put exactly 1 (on a full cache: evictions, then exactly one more insertion), or take 1..64 - so "
+         "that the container is left idle and measured right after 'removal(s) or eviction, exactly one more Add' and after 'removals only', with no collection in between (classes reach_measured_idle_after_...). "
+         "Every case ends with: close the iterators, measure, insert 3 entries (re-use), measure. The harness holds a strong reference to an object only while its entry is live (caches: until the delete callback) and a weak.Pointer afterwards. "
+         "Measurement: runtime.GC() until at most 8 + (open iterators) KEY objects and at most 0 + (open iterators) VALUE objects and PRIMARY-KEY objects of removed entries still resolve, deadline 10 collections (sync.Pool needs two); more than that after 10 collections = violation "
          "map:reach-retained / lru:reach-retained - unless the container, asked about up to 64 of the retained keys (Get / Remove), says one is present: then harness and container disagree about the live set, which is C10/C08's business, no verdict. "
-         "The bound does not depend on slots or on the history. non-trivial = a measurement with every iterator closed at <= 1/8 of a peak >= 256 entries. "
+         "The bounds do not depend on slots or on the history. non-trivial = a measurement with every iterator closed at <= 1/8 of a peak >= 256 entries. "
          "distinct = hash of the case",
     assumptions=["structural part: 'retains nothing' and 'cost does not grow' are decided through the number of list nodes reachable from the head (First() and eviction walk the list from "
                  "the head), not through timing or heap measurements",
                  "reachability part: 'keeps reachable' is decided by the garbage collector (weak pointers resolved after runtime.GC()), for keys/values/PKs that are or contain pointers; memory retained without such a pointer "
-                 "(bare list nodes, integer keys) is not seen by it. The constant allowed beyond live and pinned entries is 8 objects per role; the unchanged library was measured (about 30000 cases of all kinds, many seeds, counts left to settle over 4 collections) "
-                 "at never more than 1 key (the stale key of the recycled node that serves as trailing sentinel until the next Add), 0 values, 0 PKs with every iterator closed, and open iterators + 1 keys otherwise; 8 is that plus a margin for runtime effects",
+                 "(bare list nodes, integer keys) is not seen by it. The constant allowed beyond live and pinned entries is per role what the unchanged library needs: it was measured (about 30000 cases of all kinds, many seeds, counts left to settle over 4 collections; "
+                 "re-measured with the take/put/flight ops and the drawn endings, 12 more seeds, about 44000 cases of both units at the quick and the thorough sizes) "
+                 "at never more than 1 key (the stale key of the recycled node that serves as trailing sentinel until the next Add), 0 values, 0 PKs with every iterator closed, and open iterators + 1 keys, 0 values otherwise. "
+                 "Keys: 8 = that plus a margin. Values and primary keys: 0 - the statement says 'no removed entry is retained', map.go wipes the value of a list node at the moment of the removal on every path (unlinked, pinned, recycled), "
+                 "so no history leaves one behind, and a single value kept in a recycled node is exactly the kind of retention only this oracle can see; runtime effects are absorbed by the deadline of 10 collections, not by a count. "
+                 "For the caches the statement allows 'capacity plus a constant': the constant is taken per role from the unchanged implementation as well (its recency list is that map)",
+                 "reachability part, flight op: a key handed to GetOrCreate whose creation fails was never an entry; 'retains nothing beyond its residents' is read as covering it (the cache has no reason to keep it once the call has returned). Remove/Clear "
+                 "overtaking a creation are ordinary calls of the documented API made from another goroutine; their return values and the residency of a creation that succeeds afterwards are C08/C09's business and not asserted here",
                  "reachability part: the objects are at least 56 bytes and hold a pointer (never tiny-allocated, so no two share a block); nothing else in the test process refers to them: ops run in functions that have returned before the measurement, "
                  "the case record is plain integers",
                  "invariants are read through the overlay accessors (*Map).VerifWalk and (*ECache).VerifWalk; if they do not compile the units report inconclusive"],
@@ -48,5 +59,6 @@ LEVEL_TEXT["C11"] = (
     "live entries, the sentinel and the entries pinned by open iterators, with matching reference counts, and for the cache the node count must "
     "not depend on the history length. What is kept outside that list (free lists, slabs, stale fields) is asked of the garbage collector: in generated histories whose peak is far above "
     "the final size (fill, thin out to evenly spread survivors, Clear and re-use; maps with parked iterators; all three caches) the keys/values/PKs of removed entries, held by the harness through "
-    "weak pointers only, must be collected - all but 8 plus the open iterators, whatever the size - while the container is alive. Evidence = cases, walks, long histories, measurements; not a proof for longer histories."
+    "weak pointers only, must be collected - all values and primary keys, all but 8 keys, plus the open iterators, whatever the size - while the container is alive; the histories also end right after a removal or eviction followed by exactly one insertion, "
+    "and the caches also serve creations that are overtaken by Remove/Clear while in flight and then fail. Evidence = cases, walks, long histories, measurements; not a proof for longer histories."
 )
